@@ -10,7 +10,10 @@
 #ifndef CHAISCRIPT_THREADING_HPP_
 #define CHAISCRIPT_THREADING_HPP_
 
+#include <atomic>
+#include <cstdint>
 #include <unordered_map>
+#include <utility>
 
 #ifndef CHAISCRIPT_NO_THREADS
 #include <mutex>
@@ -79,23 +82,43 @@ namespace chaiscript::detail::threading {
 
     ~Thread_Storage() { t().erase(this); }
 
-    inline const T *operator->() const noexcept { return &(t()[this]); }
+    inline const T *operator->() const noexcept { return &get(); }
 
-    inline const T &operator*() const noexcept { return t()[this]; }
+    inline const T &operator*() const noexcept { return get(); }
 
-    inline T *operator->() noexcept { return &(t()[this]); }
+    inline T *operator->() noexcept { return &get(); }
 
-    inline T &operator*() noexcept { return t()[this]; }
+    inline T &operator*() noexcept { return get(); }
 
     void *m_key;
 
   private:
+    /// Per-thread entries are keyed by the address of this object, and only the destroying
+    /// thread's entry is erased by the destructor. A later Thread_Storage constructed at the
+    /// same address must not inherit the entry a previous object left behind on other threads,
+    /// so each entry remembers the unique id of the object it belongs to and is reset on mismatch.
+    static std::uint64_t next_id() noexcept {
+      static std::atomic<std::uint64_t> s_id{0};
+      return ++s_id;
+    }
+
+    T &get() const noexcept {
+      auto &entry = t()[this];
+      if (entry.first != m_id) {
+        entry.second = T();
+        entry.first = m_id;
+      }
+      return entry.second;
+    }
+
     /// todo: is it valid to make this noexcept? The allocation could fail, but if it
     /// does there is no possible way to recover
-    static std::unordered_map<const void *, T> &t() noexcept {
-      static thread_local std::unordered_map<const void *, T> my_t;
+    static std::unordered_map<const void *, std::pair<std::uint64_t, T>> &t() noexcept {
+      static thread_local std::unordered_map<const void *, std::pair<std::uint64_t, T>> my_t;
       return my_t;
     }
+
+    const std::uint64_t m_id = next_id();
   };
 
 #else // threading disabled
